@@ -1589,11 +1589,18 @@ func (r *Raft) appendEntries(rpc RPC, a *AppendEntriesRequest) {
 			// compacted away, so it has to be checked against the snapshot, the
 			// same way the leader builds the request (see setPreviousLog).
 			prevLogTerm = snapTerm
-		} else if a.PrevLogEntry < snapIdx {
+		} else if a.PrevLogEntry < snapIdx && !r.snapshotDiverged {
 			// The previous entry is covered by our snapshot. Everything a
 			// snapshot covers is committed, and a leader holds every committed
 			// entry, so it cannot differ; we just can no longer look it up.
 			prevLogTerm = a.PrevLogTerm
+		} else if a.PrevLogEntry < snapIdx {
+			// Our snapshot is known not to match this leader's log (see
+			// snapshotDiverged): keep refusing until it sends its snapshot.
+			r.logger.Warn("previous log is covered by a snapshot that diverged from the leader",
+				"previous-index", a.PrevLogEntry, "snapshot-index", snapIdx)
+			resp.NoRetryBackoff = true
+			return
 		} else {
 			var prevLog Log
 			if err := r.logs.GetLog(a.PrevLogEntry, &prevLog); err != nil {
@@ -1611,6 +1618,9 @@ func (r *Raft) appendEntries(rpc RPC, a *AppendEntriesRequest) {
 			r.logger.Warn("previous log term mis-match",
 				"ours", prevLogTerm,
 				"remote", a.PrevLogTerm)
+			if snapIdx, _ := r.getLastSnapshot(); snapIdx > 0 && a.PrevLogEntry == snapIdx {
+				r.snapshotDiverged = true
+			}
 			resp.NoRetryBackoff = true
 			return
 		}
@@ -2030,7 +2040,7 @@ func (r *Raft) installSnapshot(rpc RPC, req *InstallSnapshotRequest) {
 	// too far). Installing it would move the FSM, the last snapshot and the
 	// configuration backwards, so acknowledge it instead: we do hold everything
 	// it covers, and the leader resumes with AppendEntries right after it.
-	if req.LastLogIndex <= r.getLastApplied() && r.holdsEntry(req.LastLogIndex, req.LastLogTerm) {
+	if req.LastLogIndex <= r.getLastApplied() && !r.snapshotDiverged && r.holdsEntry(req.LastLogIndex, req.LastLogTerm) {
 		r.logger.Info("ignoring installSnapshot request that is not newer than the applied state",
 			"snapshot-index", req.LastLogIndex, "last-applied", r.getLastApplied())
 		resp.Success = true
@@ -2102,6 +2112,7 @@ func (r *Raft) installSnapshot(rpc RPC, req *InstallSnapshotRequest) {
 
 	// Update the last stable snapshot info
 	r.setLastSnapshot(req.LastLogIndex, req.LastLogTerm)
+	r.snapshotDiverged = false
 
 	// Restore the peer set
 	r.setLatestConfiguration(reqConfiguration, reqConfigurationIndex)
